@@ -1928,11 +1928,15 @@ def chained_logic(
 
 def optimize_or(left: SymbolicExpression, right: SymbolicExpression) -> OR:
 
+    # the variables the two sides range over: not the literals, and not the results of predicates / symbolic functions,
+    # which are computed from the other variables (each call is a variable of its own and would make any two sides differ)
     left_vars = left._unique_variables_.filter(
         lambda v: not isinstance(v.value, Literal)
+        and not v.value._should_be_instantiated_
     )
     right_vars = right._unique_variables_.filter(
         lambda v: not isinstance(v.value, Literal)
+        and not v.value._should_be_instantiated_
     )
     if set(left_vars.unwrapped_values) == set(right_vars.unwrapped_values):
         return ElseIf(left, right)
